@@ -387,6 +387,7 @@ func TestVerifC08(t *testing.T) {
 			}
 		}
 	}
+	scs = append(scs, c08wsScenarios()...)
 	if hx.Main("C08", scs) == 2 {
 		t.Fatal("internal error")
 	}
